@@ -23,12 +23,13 @@ pub fn one<const D: usize>(id: &str, ps: &gens::PointSet, g: usize, robust: bool
         id,
         "cx",
         &format!(
-            "D={D} fam={} gp={} g={g} kernel={} {} api={api} expect=certified n={}",
+            "D={D} fam={} gp={} g={g} kernel={} {} api={api} expect=certified n={} dedup_tol={}",
             ps.family,
             ps.gp as u8,
             if robust { "robust" } else { "fast" },
             opts.tag(),
-            vs.len()
+            vs.len(),
+            crate::common::hx(if opts.dedup == 2 { 1e-9 } else { 0.0 })
         ),
     );
     tri::input_lines(&vs, &mut ids, out);
@@ -121,6 +122,30 @@ pub fn run(cfg: &Cfg, rng: &mut Rng, out: &mut Out) {
                         4 => one::<4>(&id, &ps, g, false, &o, 3, rng, out),
                         _ => one::<5>(&id, &ps, g, false, &o, 3, rng, out),
                     }
+                }
+            }
+        }
+    }
+    // dedup sweep: every dedup policy meets duplicates, near-duplicates and coordinates that are
+    // huge relative to the tolerance (|c| / tol beyond 2^53 and 2^63: the fallback paths), through
+    // the statistics constructor so that every input vertex must be accounted for
+    for d in 2..=5usize {
+        for dedup in 0..3u8 {
+            for far_exp in [0i32, 24, 34, 40] {
+                let mut pts = gens::to_f(&gens::general_position(rng, d, d + 3, 8), 1.0, 0.0);
+                let dup = pts[1].clone();
+                pts.insert(3, dup);                                  // exact duplicate
+                let mut near = pts[0].clone(); near[0] += 2.5e-10;   // within / beyond the tolerances
+                pts.push(near);
+                if far_exp > 0 { let mut far = vec![1.0; d]; far[d - 1] = 2f64.powi(far_exp) + 3.0; pts.insert(2, far); }
+                let ps = gens::PointSet { family: "dedup_sweep", pts, gp: false };
+                let o = Opts { order: rng.below(4) as u8, dedup, simplex: 0, retry: 0 };
+                let id = format!("dd{d}_{dedup}_{far_exp}");
+                match d {
+                    2 => one::<2>(&id, &ps, 1, false, &o, 1, rng, out),
+                    3 => one::<3>(&id, &ps, 1, false, &o, 1, rng, out),
+                    4 => one::<4>(&id, &ps, 1, false, &o, 1, rng, out),
+                    _ => one::<5>(&id, &ps, 1, false, &o, 1, rng, out),
                 }
             }
         }
